@@ -59,6 +59,8 @@ def _scores(tier):
         return p
     out.append(("key_change_at_the_second_and_third_bar", lambda: with_keys(G.build_part("P1", 4, notes=[("n0", 0, 16, "C", None, 4, 1, 1), ("n1", 16, 16, "D", None, 4, 1, 1), ("n2", 32, 16, "E", None, 4, 1, 1)],
                                                                                           key=(0, "major"), measures=[(0, 16), (16, 32), (32, 48)]), (16, 3, "major"), (32, -2, "minor"))))
+    out.append(("change_to_the_relative_minor_and_back", lambda: with_keys(G.build_part("P1", 4, notes=[("n0", 0, 16, "C", None, 4, 1, 1), ("n1", 16, 16, "A", None, 3, 1, 1), ("n2", 32, 16, "E", None, 4, 1, 1)],
+                                                                                         key=(0, "major"), measures=[(0, 16), (16, 32), (32, 48)]), (16, 0, "minor"), (32, 0, "major"))))
     out.append(("beat_type_changes_six_eight_to_four_four", lambda: G.build_part("P1", 4, ts=((0, 6, 8), (24, 4, 4)), notes=[("n0", 0, 12, "C", None, 4, 1, 1), ("n0b", 12, 12, "C", None, 4, 1, 1), ("n1", 24, 16, "D", None, 4, 1, 1),
                                                                                                                              ("n2", 40, 16, "E", None, 4, 1, 1)], key=(0, "major"), measures=[(0, 12), (12, 24), (24, 40), (40, 56)])))
     out.append(("beat_type_changes_two_two_to_three_eight_with_a_key_change", lambda: with_keys(G.build_part("P1", 4, ts=((0, 2, 2), (32, 3, 8)), notes=[("n0", 0, 16, "C", None, 4, 1, 1), ("n0b", 16, 16, "C", None, 4, 1, 1),
@@ -94,7 +96,10 @@ def _triple(part, variant):
         al.append(dict(label="insertion", performance_id="n900"))
         notes.append(dict(id="n901", midi_pitch=77, note_on=0.2, note_off=0.24, velocity=20, track=0, channel=0))
         al.append(dict(label="ornament", score_id=str(na[order[0]]["id"]), performance_id="n901", type="trill"))
-    controls = [] if variant == "plain" else [dict(number=64, time=0.3, value=127, track=0, channel=0), dict(number=64, time=1.1, value=0, track=0, channel=0), dict(number=67, time=0.5, value=90, track=0, channel=0)]
+    controls = [] if variant == "plain" else [dict(number=64, time=0.3, value=127, track=0, channel=0), dict(number=64, time=1.1, value=0, track=0, channel=0), dict(number=67, time=0.5, value=90, track=0, channel=0),
+                                                      # two pedal values on one tick (a fast pedal movement on a coarse clock), and a soft and a sustain event on one tick
+                                                      dict(number=64, time=1.5, value=70, track=0, channel=0), dict(number=64, time=1.5, value=90, track=0, channel=0),
+                                                      dict(number=67, time=1.5, value=20, track=0, channel=0), dict(number=67, time=1.5, value=0, track=0, channel=0)]
     return pf.PerformedPart(notes, id="PP", controls=controls), al
 
 
